@@ -100,7 +100,7 @@ def record_sessions(rnd, nsessions, maxlen, root):
     for tid in range(nsessions):
         # every session uses one file per type (two for lists of text files)
         ptypes = {'p0': 'string', 'p1': 'textfile', 'p2': 'textfiles', 'p3': 'textfiles',
-                  'p4': 'binary', 'p5': 'dataframe', 'p6': 'ondisk', 'p7': 'csvframe'}
+                  'p4': 'binary', 'p5': 'dataframe', 'p6': 'ondisk', 'p7': 'csvframe', 'p8': 'csv2pq'}
         cnames = ['c%d' % i for i in range(20)]
         sess = rs.Session(os.path.join(root, 't%d' % tid), ptypes, cnames, variant=rnd.randint(0, 3))
         try:
@@ -169,7 +169,7 @@ def record_sessions(rnd, nsessions, maxlen, root):
                     sess.set_regeneration(kind, flag)
                     events.append({'tid': tid, 'seq': seq, 'ev': 'SetRegeneration', 'kind': kind, 'flag': flag})
                     continue
-                ty = rnd.choice(['string', 'textfile', 'textfiles', 'binary', 'dataframe', 'ondisk', 'csvframe'])
+                ty = rnd.choice(['string', 'textfile', 'textfiles', 'binary', 'dataframe', 'ondisk', 'csvframe', 'csv2pq'])
                 kind = rnd.choice(['NoKind'] + kinds)
                 paths = [p for p, t in ptypes.items() if t == ty]
                 if ty == 'textfiles' and rnd.random() < 0.5:
